@@ -68,7 +68,4 @@ def run(ctx):
 
 
 def replay(ctx, path):
-    import json
-    d = json.load(open(path))
-    print(json.dumps({k: v for k, v in d['case'].items() if k != 'molblock'}, indent=1)[:6000])
-    return 0
+    return m1lib.replay_case(ctx, path)
